@@ -430,7 +430,7 @@ func cmdReplay(args []string) int {
 // ------------------------------------------------------------------------------------------
 // worker deaths: crash (fatal error / unrecovered panic), CPU wedge, data race report
 
-var raceFrame = regexp.MustCompile(`(?m)^\s+(servitor/[^\s(]+)\(`)
+var raceFrame = regexp.MustCompile(`(?m)^\s+(servitor/\S+)\(\)\s*$`)
 
 func classifyDeath(prop string, d *jobDeath) (rule, culprit string) {
 	st := d.stderr
